@@ -78,6 +78,18 @@ Theorem C17_join_misses_accepted_job_refuted :
 Proof. exact join_misses_accepted_job_refuted. Qed.
 Print Assumptions C17_join_misses_accepted_job_refuted.
 
+(* REFUTED (new finding): "waiting always returns" for shutdown(wait=True): _join re-raises
+   the exception of a timed-out / failed job, so shutdown() terminates with that exception,
+   never returns normally afterwards, and has not waited for the remaining jobs -- here job 1,
+   registered before the request, is still running *)
+Theorem C17_shutdown_wait_returns_refuted :
+  exists tmos sched st,
+    run (init tmos [true]) sched = Some st /\ shutdown_raised 0 sched /\
+    ~ accepted_after_return sched /\ raisedb st 0 = true /\ running st 1 = true /\
+    forall ext st', run st ext = Some st' -> raisedb st' 0 = true.
+Proof. exact shutdown_wait_raises_refuted. Qed.
+Print Assumptions C17_shutdown_wait_returns_refuted.
+
 (* non-vacuity: a complete run of one job with a time limit that times out, next to a
    shutdown(wait=True): delivered exactly once, reported unknown, quiescent at the end *)
 Example C17_nonvacuous :
